@@ -215,6 +215,17 @@ def scenarios(tier: str) -> List[Dict[str, Any]]:
                     out.append({"A": 2, "P": 1, "N": None, "stream": "finite", "stop": False, "level": lvl,
                                 "propagate": True, "ack_type": "when_saved", "deps": deps,
                                 "msgs": [_msg("return" if o1 == "fail" else o1, "sync"), _msg("return" if o2 == "fail" else o2, "sync")]})
+    # at-least-once delivery: two executions of the same task id in flight at once (a redelivery overlapping the
+    # first execution) - each has its own dependency instances, torn down once, before its own result is stored
+    for shape in (("chain2", "2flat") if tier == "quick" else ("chain2", "2flat", "diamond", "chain3")):
+        k = len(SHAPES[shape][1])
+        for styles in (("agen",) * k, ("acm", "gen", "agen")[:k]):
+            for o1, o2 in (("return", "return"), ("return", "raise"), ("raise", "timeout")):
+                deps = _deps(shape, styles, gated=True)
+                m1, m2 = _msg(o1, "sync"), _msg(o2, "sync")
+                m2["same_id_as"] = 0
+                out.append({"A": 2, "P": 1, "N": None, "stream": "finite", "stop": False, "level": 0,
+                            "propagate": True, "ack_type": "when_saved", "deps": deps, "msgs": [m1, m2]})
     # task exceptions that derive from BaseException but not from Exception (custom BaseException, CancelledError
     # of an awaited inner future, SystemExit of a sync task): thrown into the dependencies like any other
     for shape in ("chain2", "2flat"):
